@@ -16,13 +16,16 @@
  *   FMLSIM_CPU=<s>          CPU-time rlimit (watchdog) and a 12 GiB address-space rlimit set inside the child
  *   FMLSIM_BUDGET=<n>        total intercepted read/write calls allowed; beyond it calls fail with EIO
  *   FMLSIM_PLAN=<entry>[;<entry>]...   entry = <class>:<index|*>:<action>:<arg>
- *       class  o = write on fd 1, f = write on fd >= 3, i = read on fd 0, r = read on fd >= 3
+ *       class  o = write on fd 1, f = write on fd >= 3, i = read on fd 0, r = read on fd >= 3,
+ *              e = write on fd 2 (touched only when the plan names class e: the reader of stderr went away, stderr on a full disk)
  *       action l = accept/deliver at most <arg> bytes (usually with index *)
  *              s = short: accept/deliver <arg> bytes (clamped to 1..len-1)
  *              b = short: all but one byte
  *              e = fail with EINTR, nothing transferred
  *              x = fail hard with errno <arg>; sticky for the class
  *              y = fail hard with errno <arg> on this call only (a one-off EIO)
+ *              S = signal <arg> (SIGTERM 15, SIGINT 2, SIGHUP 1, ...) is delivered to the process just before this call, which is
+ *                  then carried out if the process still lives
  *              K = the process is killed (SIGKILL) at this call: <arg> bytes of the request are transferred first (0 = none)
  *   FMLSIM_CLOCK_S=<seconds> added to every scripted reading (years beyond what fits into 64-bit nanoseconds: 2262, 2554)
  *   FMLSIM_SCHED_DIR=<dir>, FMLSIM_SCHED_ID=<name>, FMLSIM_SCHED_AT=<kind>[,<kind>...]
@@ -55,8 +58,9 @@ struct entry { char cls; long idx; char act; long arg; };
 
 static struct entry plan[MAX_PLAN];
 static int plan_len = 0;
-static long counter[4];          /* o f i r */
-static int dead_errno[4];
+static long counter[5];          /* o f i r e */
+static int dead_errno[5];
+static int plan_has_e = 0;
 static long budget = -1, calls_total = 0;
 static int trace_fd = -1;
 static uint64_t rnd_state = 0x243F6A8885A308D3ull;
@@ -96,8 +100,8 @@ static void trace(const char *fmt, ...) {
     }
 }
 
-static int class_of(char c) { return c == 'o' ? 0 : c == 'f' ? 1 : c == 'i' ? 2 : c == 'r' ? 3 : -1; }
-static const char CLS[4] = { 'o', 'f', 'i', 'r' };
+static int class_of(char c) { return c == 'o' ? 0 : c == 'f' ? 1 : c == 'i' ? 2 : c == 'r' ? 3 : c == 'e' ? 4 : -1; }
+static const char CLS[5] = { 'o', 'f', 'i', 'r', 'e' };
 
 static void init(void) {
     if (initialised) return;
@@ -163,6 +167,7 @@ static void init(void) {
             char cls, act, idxs[32];
             long arg = 0;
             if (sscanf(tok, "%c:%31[^:]:%c:%ld", &cls, idxs, &act, &arg) >= 3 && class_of(cls) >= 0) {
+                if (cls == 'e') plan_has_e = 1;
                 plan[plan_len].cls = cls;
                 plan[plan_len].idx = idxs[0] == '*' ? -1 : strtol(idxs, NULL, 10);
                 plan[plan_len].act = act;
@@ -207,6 +212,7 @@ static long decide(int c, long n, size_t len) {
         case 'e': if (plan[k].idx == n) return -EINTR; break;
         case 'x': dead_errno[c] = plan[k].arg > 0 ? (int)plan[k].arg : EIO; return -dead_errno[c];
         case 'y': if (plan[k].idx == n) return -(plan[k].arg > 0 ? (int)plan[k].arg : EIO); break;
+        case 'S': if (plan[k].idx == n) { trace("SIG %ld before call %ld of class %c\n", plan[k].arg, n, CLS[c]); syscall(SYS_kill, syscall(SYS_getpid), (int)plan[k].arg); } break;
         case 'K': if (plan[k].idx == n) { kill_after = plan[k].arg < 0 ? 0 : plan[k].arg; if (kill_after > (long)len) kill_after = (long)len; return -100000; } break;
         case 's': if (len > 1) { long a = plan[k].arg < 1 ? 1 : plan[k].arg; if (a > (long)len - 1) a = (long)len - 1; if (a < allowed) allowed = a; } break;
         case 'b': if (len > 1 && (long)len - 1 < allowed) allowed = (long)len - 1; break;
@@ -291,8 +297,8 @@ int flock(int fd, int op) { init(); sched_point("flock"); return (int)syscall(SY
 ssize_t write(int fd, const void *buf, size_t len) {
     init();
     if (inert) return syscall(SYS_write, fd, buf, len);
-    if (fd == 2 || fd == trace_fd || fd < 1) return syscall(SYS_write, fd, buf, len);
-    int c = fd == 1 ? 0 : 1;
+    if ((fd == 2 && !plan_has_e) || fd == trace_fd || fd < 1) return syscall(SYS_write, fd, buf, len);
+    int c = fd == 1 ? 0 : fd == 2 ? 4 : 1;
     long n = counter[c]++;
     if (c == 1) sched_point("writef");
     if (over_budget()) { errno = EIO; return -1; }
